@@ -86,3 +86,19 @@ def no_yield_under_spinlock(R, prog, P, files, min_sites=5, exempt=None):
                 R.held(rule, key, f.id, ev.loc(), 'may-yield call %s with no spinlock held' % callee, nontrivial=bool(states))
     if n < min_sites:
         raise AnalysisBroken('%s: expected >= %d may-yield call sites, found %d' % (rule, min_sites, n))
+
+
+ERRN = 'photon::thread::error_number'
+
+
+def reason_not_overwritten(R, prog, P):
+    """K6: thread_interrupt() without the thread lock stores a reason only for a READY thread that has none pending
+    (the wake-up reason -1 of a mutex/semaphore hand-off is the only way the woken thread learns it owns the token)."""
+    G = K.build(R, prog, 'photon::thread_interrupt')
+    res = an.run(G, [an.LockTracker(), an.GuardTracker(lambda k: True)])
+    wr = lambda ev: (K.written_member(ev) or ('',))[0] == ERRN
+    K.check_at(R, P + '.K6', G, res, wr,
+               require=lambda st, ev: any(re.match(r'^G:\w+ == 0=T$', x) or re.match(r'^G:\w+=F$', x) or re.match(r'^G:\w+->error_number=F$', x) for x in st if 'error_number' in x)
+               and any(re.match(r'^G:state == 0=T$', x) or re.match(r'^G:state=F$', x) for x in st),
+               key_fn=lambda ev: P + '.K6:photon::thread_interrupt:mark-only-ready-unmarked',
+               describe=lambda ev: 'without the thread lock a reason is stored only for a READY thread with no pending reason', min_sites=1, what='error_number write')
